@@ -812,6 +812,7 @@ class GroupNorm(Module):
 
     group_shape = x.shape[:-1] + (self.num_groups, self.group_size)
     if mask is not None:
+      mask = jnp.broadcast_to(mask, x.shape)
       mask = mask.reshape(mask.shape[:-1] + (self.num_groups, self.group_size))
 
     mean, var = _compute_stats(
